@@ -206,11 +206,33 @@ def main():
 
     # ------------------------------------------------ point-dipole formula
     debye = 1.0e-21 / const.c                     # C m
-    for s in range(30 if ck.thorough else 8):
+    forms = ["float", "int-array", "int-list", "mixed", "float", "int-array",
+             "int-list", "float32"]   # (tuples are refused by the setter)
+    for s in range(32 if ck.thorough else 16):
+        form = forms[s % len(forms)]
         d1, d2 = rng.randn(3) * 3, rng.randn(3) * 3
         r1 = rng.randn(3) * 5
         r2 = r1 + rng.randn(3) * 8 + numpy.array([6.0, 0, 0])
+        # the same geometry in the representations a user may type
+        if form != "float":
+            r1 = numpy.round(r1)
+            r2 = numpy.round(r2)
+            if form in ("int-array", "mixed"):
+                d1 = numpy.round(d1) + numpy.array([1.0, 0, 0])
+            if form == "int-array":
+                r1, r2 = r1.astype(int), r2.astype(int)
+                d1 = d1.astype(int)
+            elif form == "int-list":
+                r1, r2 = [int(x) for x in r1], [int(x) for x in r2]
+            elif form == "mixed":
+                r1 = r1.astype(int)
+            elif form == "float32":
+                r1, r2 = r1.astype(numpy.float32), r2.astype(numpy.float32)
         epsr = float(rng.choice([1.0, 1.5, 2.2]))
+        pr1, pr2 = r1, r2
+        r1 = numpy.array(r1, dtype=float)
+        r2 = numpy.array(r2, dtype=float)
+        d1 = numpy.array(d1)
         Rv = (r1 - r2)
         RR = numpy.linalg.norm(Rv)
         nn = Rv / RR
@@ -219,14 +241,14 @@ def main():
                                (RR * 1e-10) ** 3))
         want_int = Jsi / const.hbar * 1e-15
         rp = dict(kind="point-dipole", d1=d1.tolist(), d2=d2.tolist(),
-                  r1=r1.tolist(), r2=r2.tolist(), epsr=epsr)
-        with ck.guarded("point-dipole", "coupling", rp, rp):
+                  r1=r1.tolist(), r2=r2.tolist(), epsr=epsr, form=form)
+        with ck.guarded("point-dipole", "coupling:" + form, rp, rp):
             m1 = qr.Molecule([0.0, 1.0])
             m2 = qr.Molecule([0.0, 1.1])
             m1.set_dipole(0, 1, list(d1))
             m2.set_dipole(0, 1, list(d2))
-            m1.position = r1
-            m2.position = r2
+            m1.position = pr1
+            m2.position = pr2
             ag = qr.Aggregate([m1, m2])
             ag.set_coupling_by_dipole_dipole(epsr=epsr)
             with qr.energy_units("int"):
@@ -238,7 +260,7 @@ def main():
             ck.case("point-dipole", s, sample=dict(rp, got=got, want=want_int,
                                                    rel=e))
             if e > 1e-6 or e2 > 1e-6:
-                ck.violation("point-dipole", "formula", dict(
+                ck.violation("point-dipole", "formula:" + form, dict(
                     rp, got=got, want=want_int, rel=e, rel_cm=e2), rp)
 
     ck.assume("two-level molecules; TLC bound N <= 4 (5), multiplicity 1, 2; "
